@@ -587,3 +587,157 @@ Proof.
   - assert (Hpos : 0 <? N.of_nat (length (e2 :: r2)) = true) by (apply N.ltb_lt; simpl; lia).
     rewrite Hpos in HK. rewrite HK; [reflexivity|]. rewrite Hn, Nat2N.inj_succ in Hlt. lia.
 Qed.
+
+(* ---------------- the per-key specification of the new-cpio strategy ---------------- *)
+Definition cstate := option (bytes * option lentry * N).   (* first pathname, deferred entry, links not yet seen *)
+
+Definition abs_c (t : table) (d i : N) : cstate :=
+  match alookup (les t) d i with Some x => Some (epath (canon x), held x, links x) | None => None end.
+
+Definition out_c (st : cstate) (e : lentry) : (option lentry * option lentry) * cstate :=
+  match st with
+  | None => ((None, None), Some (epath e, Some e, (enlink e + two32 - 1) mod two32))
+  | Some (p, h, l) =>
+    let l' := (l + two32 - 1) mod two32 in
+    let a := match h with Some o => Some (mark_hardlink true o p) | None => None end in
+    if l' =? 0 then ((a, Some e), None) else ((a, None), Some (p, Some e, l'))
+  end.
+
+Fixpoint cpio_spec (st : cstate) (es : list lentry) : list (option lentry * option lentry) * cstate :=
+  match es with
+  | [] => ([], st)
+  | e :: r =>
+    if is_passthrough e then let '(o, s) := cpio_spec st r in ((Some e, None) :: o, s)
+    else let '(x, st') := out_c st e in let '(o, s) := cpio_spec st' r in (x :: o, s)
+  end.
+
+Lemma newcpio_push t e :
+  Good t -> strategy t = LINKIFY_LIKE_NEW_CPIO -> is_passthrough e = false ->
+  exists t', linkify t e = (t', fst (out_c (abs_c t (edev e) (eino e)) e)) /\
+    Good t' /\ strategy t' = strategy t /\
+    abs_c t' (edev e) (eino e) = snd (out_c (abs_c t (edev e) (eino e)) e) /\
+    (forall d i, same_key d i e = false -> abs_c t' d i = abs_c t d i).
+Proof.
+  intros [HW Hn] HS Hp.
+  assert (Hlink : linkify t e =
+    match find_entry t e (set_held e) with
+    | Some (x, t') =>
+      (t', (match held x with Some o => Some (mark_hardlink true o (epath (canon x))) | None => None end,
+            if links x =? 0 then Some e else None))
+    | None => (insert_entry t e (Some e), (None, None))
+    end).
+  { unfold linkify. rewrite Hp, HS. reflexivity. }
+  rewrite Hlink.
+  destruct (find_entry t e (set_held e)) as [[x1 t1]|] eqn:F.
+  - pose proof (find_entry_WF _ _ _ _ _ HW (fun nb b x H => slot_ok_set_held nb b e x H) F) as HW1.
+    destruct HW as [Hpw Hs].
+    destruct (find_entry_spec _ _ _ _ _ Hpw F) as (HS1 & HL & P & x0 & Q & H1 & -> & H2).
+    fold (les t) in H1. fold (les t1) in H2.
+    assert (Hk0 : kmatch x0 (edev e) (eino e) = true).
+    { unfold find_entry in F.
+      destruct (find_in_live (nth (bucket_ix (hash_of e) (nbuckets t)) (buckets t) []) (hash_of e)
+                  (edev e) (eino e) (set_held e)) as [G1 _].
+      destruct (find_in _ _ _ _ _) as [[r b']|] eqn:FI; [|discriminate].
+      inversion F; subst r.
+      destruct (G1 _ _ eq_refl) as (y & Hy & Hdy).
+      assert (Hlk : live_key t e = Some y) by exact Hy.
+      rewrite live_key_alookup in Hlk by (split; auto).
+      apply alookup_some in Hlk. destruct Hlk as [Hin Hky].
+      assert (Hx0in : In x0 (les t)) by (rewrite H1; apply in_or_app; right; left; reflexivity).
+      assert (Hkx0 : kmatch x0 (edev (canon y)) (eino (canon y)) = true).
+      { assert (HC : canon (dec_links y) = canon (dec_links x0)) by (rewrite Hdy; reflexivity).
+        simpl in HC. rewrite HC. apply kmatch_self. }
+      pose proof (alookup_unique _ _ _ _ Hn Hx0in Hkx0) as U1.
+      pose proof (alookup_unique _ _ _ _ Hn Hin (kmatch_self y)) as U2.
+      rewrite U1 in U2. inversion U2; subst. exact Hky. }
+    assert (Hlook : alookup (les t) (edev e) (eino e) = Some x0).
+    { apply alookup_unique; auto. rewrite H1; apply in_or_app; right; left; reflexivity. }
+    assert (Habs : abs_c t (edev e) (eino e) = Some (epath (canon x0), held x0, links x0)).
+    { unfold abs_c. rewrite Hlook. reflexivity. }
+    exists t1. rewrite Habs. cbn [out_c].
+    change ((links x0 + two32 - 1) mod two32) with (links (dec_links x0)).
+    change (held (dec_links x0)) with (held x0). change (canon (dec_links x0)) with (canon x0).
+    assert (Hz : (0 <? links (dec_links x0)) = negb (links (dec_links x0) =? 0)).
+    { destruct (N.eqb_spec (links (dec_links x0)) 0) as [E|E]; destruct (N.ltb_spec 0 (links (dec_links x0))); simpl; auto; lia. }
+    rewrite H1 in Hn.
+    destruct (links (dec_links x0) =? 0) eqn:EZ; cbn [fst snd]; rewrite Hz in H2; cbn [negb app] in H2.
+    + split; [reflexivity|]. split; [split; [exact HW1|rewrite H2; apply (nodupk_mid _ _ _ Hn)]|].
+      split; [exact HS1|]. split.
+      * unfold abs_c. rewrite H2. destruct (nodupk_mid _ _ _ Hn) as [_ Hnone].
+        apply kmatch_keys in Hk0. destruct Hk0 as [K1 K2]. rewrite K1, K2 in Hnone. rewrite Hnone. reflexivity.
+      * intros d i Hsk. unfold abs_c. rewrite H1, H2.
+        assert (Hko : kmatch x0 d i = false).
+        { apply kmatch_keys in Hk0. destruct Hk0 as [K1 K2]. unfold kmatch. rewrite K1, K2. exact Hsk. }
+        rewrite (alookup_mid_other P x0 Q d i Hko). reflexivity.
+    + split; [reflexivity|].
+      assert (Hn' : nodupk (P ++ set_held e (dec_links x0) :: Q)) by (eapply nodupk_mid_replace; [|exact Hn]; reflexivity).
+      split; [split; [exact HW1|rewrite H2; exact Hn']|].
+      split; [exact HS1|]. split.
+      * unfold abs_c. rewrite H2.
+        rewrite (alookup_unique (P ++ set_held e (dec_links x0) :: Q) (edev e) (eino e) (set_held e (dec_links x0))); auto.
+        apply in_or_app; right; left; reflexivity.
+      * intros d i Hsk. unfold abs_c. rewrite H1, H2.
+        assert (Hko : kmatch x0 d i = false).
+        { apply kmatch_keys in Hk0. destruct Hk0 as [K1 K2]. unfold kmatch. rewrite K1, K2. exact Hsk. }
+        rewrite (alookup_mid_other P x0 Q d i Hko).
+        rewrite (alookup_mid_other P (set_held e (dec_links x0)) Q d i Hko). reflexivity.
+  - pose proof (find_entry_none_alookup _ _ _ HW F) as Hnone.
+    assert (Habs : abs_c t (edev e) (eino e) = None) by (unfold abs_c; rewrite Hnone; reflexivity).
+    exists (insert_entry t e (Some e)). rewrite Habs. cbn [out_c fst snd].
+    split; [reflexivity|].
+    destruct HW as [Hpw Hs].
+    pose proof (insert_entry_les t e (Some e) Hpw) as HP.
+    assert (Hn' : nodupk (new_le e (Some e) :: les t)) by (split; [exact Hnone|exact Hn]).
+    split; [split; [apply insert_entry_WF; split; auto|]|split; [reflexivity|split]].
+    + eapply nodupk_perm; [symmetry; exact HP|exact Hn'].
+    + unfold abs_c. rewrite (alookup_perm _ _ (edev e) (eino e) HP).
+      2:{ eapply nodupk_perm; [symmetry; exact HP|exact Hn']. }
+      cbn [alookup]. rewrite kmatch_self_e. reflexivity.
+    + intros d i Hsk. unfold abs_c. rewrite (alookup_perm _ _ d i HP).
+      2:{ eapply nodupk_perm; [symmetry; exact HP|exact Hn']. }
+      cbn [alookup]. unfold kmatch. change (canon (new_le e (Some e))) with e.
+      unfold same_key in Hsk. rewrite Hsk. reflexivity.
+Qed.
+
+Theorem newcpio_refines : forall es t t' os,
+  Good t -> strategy t = LINKIFY_LIKE_NEW_CPIO -> push_all t es = (t', os) ->
+  Good t' /\ strategy t' = LINKIFY_LIKE_NEW_CPIO /\ length os = length es /\
+  forall d i,
+    outs_for d i es os = fst (cpio_spec (abs_c t d i) (filter (same_key d i) es)) /\
+    abs_c t' d i = snd (cpio_spec (abs_c t d i) (filter (same_key d i) es)).
+Proof.
+  induction es as [|e r IH]; intros t t' os HG HS H; cbn [push_all] in H.
+  - inversion H; subst. split; [exact HG|]. split; [exact HS|]. split; [reflexivity|]. intros d i. split; reflexivity.
+  - destruct (linkify t e) as [t1 o] eqn:EL. destruct (push_all t1 r) as [t2 os2] eqn:EP.
+    inversion H; subst; clear H.
+    destruct (is_passthrough e) eqn:EPass.
+    + assert (Ht1 : t1 = t /\ o = (Some e, None)).
+      { unfold linkify in EL. rewrite EPass in EL. inversion EL; auto. }
+      destruct Ht1 as [-> ->].
+      destruct (IH _ _ _ HG HS EP) as (G2 & S2 & L2 & K2).
+      split; [exact G2|]. split; [exact S2|]. split; [simpl; f_equal; exact L2|].
+      intros d i. destruct (K2 d i) as [KA KB].
+      unfold outs_for in *. cbn [combine flat_map fst snd filter].
+      destruct (same_key d i e) eqn:ES.
+      * cbn [cpio_spec]. rewrite EPass.
+        destruct (cpio_spec (abs_c t d i) (filter (same_key d i) r)) as [oo ss] eqn:EK.
+        cbn [fst snd app] in *. rewrite KA. split; [reflexivity|exact KB].
+      * cbn [app]. split; [exact KA|exact KB].
+    + destruct (newcpio_push t e HG HS EPass) as (t1' & EL' & G1 & S1 & A1 & F1).
+      rewrite EL in EL'. inversion EL'; subst t1' o; clear EL'.
+      assert (HS1 : strategy t1 = LINKIFY_LIKE_NEW_CPIO) by congruence.
+      destruct (IH _ _ _ G1 HS1 EP) as (G2 & S2 & L2 & K2).
+      split; [exact G2|]. split; [exact S2|]. split; [simpl; f_equal; exact L2|].
+      intros d i. destruct (K2 d i) as [KA KB].
+      unfold outs_for in *. cbn [combine flat_map fst snd filter].
+      destruct (same_key d i e) eqn:ES.
+      * apply same_key_eq in ES. destruct ES as [<- <-].
+        cbn [cpio_spec]. rewrite EPass. rewrite A1 in KA, KB.
+        destruct (out_c (abs_c t (edev e) (eino e)) e) as [x st'] eqn:EO. cbn [fst snd] in *.
+        destruct (cpio_spec st' (filter (same_key (edev e) (eino e)) r)) as [oo ss] eqn:EK.
+        cbn [fst snd app] in *. rewrite KA. split; [reflexivity|exact KB].
+      * cbn [app]. rewrite (F1 d i ES) in KA, KB. split; [exact KA|exact KB].
+Qed.
+
+Lemma init_abs_c strat d i : abs_c (init_table strat) d i = None.
+Proof. unfold abs_c, les, init_table; cbn [buckets]. rewrite repeat_nil_concat. reflexivity. Qed.
